@@ -252,9 +252,19 @@ def refs (es : List Entry) : List (String × Nat × String) :=
 def exclusiveFindings (label : String) (p4 : Json) : List Finding :=
   let rs := refs (obsEntries p4)
   let dup := rs.filter fun (k, v, key) => rs.any fun (k', v', key') => k == k' && v == v' && key != key'
-  match dup with
+  -- a tunnel-peer ID an installed sessions entry points to must be allocated, i.e. have its tunnel_peers entry
+  let es := obsEntries p4
+  let peerIDs := (es.filter (·.table == Gen.P4Constants.TablePreQosPipeTunnelPeers)).filterMap fun e => e.ms.head?.map (·.v)
+  let dangling := (es.filter fun e => e.action == Gen.P4Constants.ActionPreQosPipeSetSessionDownlink).filterMap fun e =>
+    match e.ps.find? (·.1 == 1) with
+    | some (_, v, _) => if v != 0 && !peerIDs.contains v then some (v, showE { e with action := 0, ps := [] }) else none
+    | none => none
+  (match dup with
   | [] => []
-  | (k, v, key) :: _ => [⟨"C15", s!"{label}: {k} cell {v} is used by two installed entries at once (one of them {key})"⟩]
+  | (k, v, key) :: _ => [⟨"C15", s!"{label}: {k} cell {v} is used by two installed entries at once (one of them {key})"⟩]) ++
+  (match dangling with
+  | [] => []
+  | (v, key) :: _ => [⟨"C15", s!"{label}: tunnel-peer ID {v} is referenced by the installed entry {key} but has no tunnel_peers entry (released while a live session uses it)"⟩])
 
 /-- C15: pool invariants of the model state (evaluated, not assumed): free ∪ held is duplicate-free and inside the universe -/
 def poolFindings (label : String) (x : World4) (p4 : Json) : List Finding :=
